@@ -249,8 +249,14 @@ def gd_case(draw):
     vals = [draw(st.sampled_from([-1.0, 0.0, 0.5, 2.0])) for _ in sub]
     pts = [[draw(st.sampled_from([-1.5, 0.0, 0.7, 2.0])) for _ in range(8)] for _ in range(3)]
     # second distribution for the product: overlapping scope
-    m = draw(st.integers(1, 3))
-    names2 = list(draw(st.permutations(NAMES)))[:m]
+    scope2 = draw(st.sampled_from(["same_scope_other_order", "any", "subset", "any"]))
+    if scope2 == "same_scope_other_order":
+        names2 = list(draw(st.permutations(names)))
+    elif scope2 == "subset":
+        names2 = list(draw(st.permutations(names)))[: draw(st.integers(1, n))]
+    else:
+        names2 = list(draw(st.permutations(NAMES)))[: draw(st.integers(1, 3))]
+    m = len(names2)
     A2 = [[draw(st.integers(-3, 3)) / 2.0 for _ in range(m)] for _ in range(m)]
     mean2 = [draw(st.sampled_from([0.0, 1.0, -1.0, 2.0])) for _ in range(m)]
     return {"names": names, "A": A, "mean": mean, "eps": eps, "sub": sub, "vals": vals, "points": pts, "names2": names2, "A2": A2, "mean2": mean2,
@@ -338,9 +344,11 @@ def check_gd(case, out):
     g2 = GD(list(names2), mu2.tolist(), cov2.tolist())
     allv = list(names) + [v for v in names2 if v not in names]
     overlap = bool(set(names) & set(names2))
-    out.nontrivial = overlap and set(names) != set(names2)
+    out.nontrivial = overlap and list(names) != list(names2)
     if overlap:
         out.cls("overlapping_product_scopes")
+    if set(names) == set(names2) and list(names) != list(names2):
+        out.cls("product_same_scope_other_order")
     for form in ("mul", "product_copy", "product_inplace"):
         a = gd.copy()
         if form == "mul":
